@@ -286,9 +286,9 @@ def run(ctx):
 
     # ---- R14.1
     it = interp()
-    r = T.to_term(it.call_function(fg, [xp, x, False, per], {}, None))
+    from .c13 import bracket_rows, hoist_rowwise
+    r = hoist_rowwise(T.to_term(it.call_function(fg, [xp, x, False, per], {}, None)))
     xp0 = op("item", xp, sp.Integer(0))
-    from .c13 import bracket_rows
     brp = bracket_rows(r.args[0]) if fname(r) == "pymod" and len(r.args) == 2 else None
     okm = brp is not None and r.args[1] == op("len", xp)
     ctx.expect(okm, "R14.1", "enclosing_points_1d[indices modulo n]",
